@@ -49,7 +49,8 @@ type Profile struct {
 	Shutdown    bool        `json:"shutdown"`
 	CloseIn     bool        `json:"closein"`
 	WFail       bool        `json:"wfail"`
-	MaxConsume  int         `json:"max_consume"` /* Only with a small och. */
+	MaxConsume  int         `json:"max_consume"`     /* Only with a small och. */
+	Await       bool        `json:"await,omitempty"` /* The operator's side may also be found waiting for the next item. */
 	Oracles     []string    `json:"oracles"`
 	MaxDepth    int         `json:"max_depth"`
 	/* LinePayload, if set, is appended to every entered line. */
@@ -216,6 +217,9 @@ type World struct {
 	noticeSeen        int
 	stalledNotices    []string /* Non-plain notices taken so far (unbuffered och only). */
 	cumReady, cumGone int
+	awaiting          bool /* A receiver of the operator's side is parked on och. */
+	awaitCh           chan opshell.CLine
+	awaitStop         chan struct{}
 
 	m     model
 	Viols []Viol
@@ -236,14 +240,16 @@ var current *World
 // New builds a world with the broker's Do running.
 func New(p *Profile) *World {
 	w := &World{
-		P:     p,
-		ich:   make(chan string, 64),
-		och:   make(chan opshell.CLine, p.OchCap),
-		lh:    newLogHandler(p.JSONLog),
-		evL:   make(chan iobroker.Event, 1024),
-		doRet: make(chan error, 1),
-		usage: make([]int, len(p.Starts)),
-		c03:   map[int]*c03State{},
+		P:         p,
+		ich:       make(chan string, 64),
+		och:       make(chan opshell.CLine, p.OchCap),
+		lh:        newLogHandler(p.JSONLog),
+		evL:       make(chan iobroker.Event, 1024),
+		doRet:     make(chan error, 1),
+		awaitCh:   make(chan opshell.CLine, 1),
+		awaitStop: make(chan struct{}),
+		usage:     make([]int, len(p.Starts)),
+		c03:       map[int]*c03State{},
 	}
 	var err error
 	if w.b, err = iobroker.New(w.ich, w.och); nil != err {
@@ -451,8 +457,14 @@ func (w *World) Enabled() []Event {
 			evs = append(evs, Event{Op: "cancel", A: a.id})
 		}
 	}
-	if !p.Roomy() && w.consumed < p.MaxConsume {
+	if !p.Roomy() && w.consumed < p.MaxConsume && !w.awaiting {
 		evs = append(evs, Event{Op: "consume"})
+		if p.Await {
+			/* The operator's side goes to wait for the next item: it takes
+			what a blocked sender offers (like consume) or, if nobody is
+			offering, whatever is offered next, at once. */
+			evs = append(evs, Event{Op: "await"})
+		}
 	}
 	if p.Shutdown && !w.shutdown && !mid {
 		evs = append(evs, Event{Op: "shutdown"})
@@ -557,6 +569,15 @@ func (w *World) Do(e Event) *Step {
 			st.Notices = append(st.Notices, cl)
 		default:
 		}
+	case "await":
+		w.awaiting = true
+		go func() {
+			select {
+			case cl := <-w.och:
+				w.awaitCh <- cl
+			case <-w.awaitStop:
+			}
+		}()
 	case "shutdown":
 		w.shutdown = true
 		w.m.noMore = true
@@ -586,6 +607,16 @@ func (w *World) settle(st *Step) {
 				default:
 				}
 				break
+			}
+		}
+		if w.awaiting {
+			select {
+			case cl := <-w.awaitCh:
+				w.awaiting = false
+				w.consumed++
+				st.Notices = append(st.Notices, cl)
+				moved = true
+			default:
 			}
 		}
 		/* Connect calls which returned: the transport closes the stream,
@@ -721,7 +752,7 @@ func (w *World) Canon() string {
 	fmt.Fprintf(&sb, "B:%s,%v,%v,%v,%v|", w.keyClass(key), in, out, noMore, locked)
 	fmt.Fprintf(&sb, "S:%v,%v|I:%d,%v,%d|", w.shutdown, w.doReturned, len(w.ich), w.ichClosed, w.linesEntered)
 	if !w.P.Roomy() {
-		fmt.Fprintf(&sb, "O:%d,%d,%d|", len(w.och), w.consumed, w.plainSeen)
+		fmt.Fprintf(&sb, "O:%d,%d,%d,%v|", len(w.och), w.consumed, w.plainSeen, w.awaiting)
 	}
 	fmt.Fprintf(&sb, "U:%v|", w.usage)
 	var as []string
@@ -782,6 +813,7 @@ func (w *World) Close() int {
 		}
 	}
 	w.mu.Unlock()
+	close(w.awaitStop)
 	w.rootCancel()
 	stop := make(chan struct{})
 	var dwg sync.WaitGroup
